@@ -2,6 +2,7 @@ package checks
 
 import (
 	"fmt"
+	"go/types"
 	"sort"
 	"strings"
 
@@ -239,8 +240,22 @@ func checkC04(c *Ctx) *report.Result {
 		st := c.quietState(m)
 		it.Intercepts[im.CheckFn] = func(s *ai.State, _ ssa.Instruction, _ []ai.Value) (ai.Value, *ai.State) { return s5, s }
 		pcS := c.symCell(st, cpu, ".pc")
+		// the early-exit predicate of the previous instruction must not survive into the sequence
+		predField := ""
+		if stt, ok := cpu.T.Underlying().(*types.Struct); ok {
+			for i := 0; i < stt.NumFields(); i++ {
+				if f := stt.Field(i); isEarlyType(f.Type()) {
+					predField = "." + f.Name()
+					st.SetCell(cpu, predField, &ai.Top{T: f.Type()})
+				}
+			}
+		}
 		ev, calls := c.evalCPU(st, m.NextFn, []ai.Value{ptrTo(cpu)}, nil, nil)
 		delete(it.Intercepts, im.CheckFn)
+		if predField != "" && ev.Post != nil {
+			_, isNil := ev.Post.LoadPtr(&ai.Ptr{Obj: cpu, Path: predField, Elem: ai.LeafTypeAt(cpu.T, predField)}).(*ai.NilV)
+			r.Ob("I-seq", isNil, "fetch routine clears the early-exit predicate when it installs an interrupt sequence", firstPos(c, m.NextFn), "the previous instruction's early-exit predicate stays in force during the dispatch sequence: the sequence ends early or runs past its end")
+		}
 		pc := c.cellInt(ev.Post, cpu, ".pc")
 		okPC := pc != nil && pc.HasBase && pc.Base == pcS && pc.Off == 0
 		installed := false
